@@ -13,3 +13,8 @@ pub assume_specification<T: core::cmp::PartialEq>[ <[T]>::contains ](s: &[T], x:
 // <String as AsRef<str>>::as_ref: the same text
 pub assume_specification[ <std::string::String as std::convert::AsRef<str>>::as_ref ](s: &std::string::String) -> (r: &str)
     ensures r@ == s@;
+
+// Option::or
+pub assume_specification<T>[ std::option::Option::<T>::or ](a: std::option::Option<T>, b: std::option::Option<T>) -> (r: std::option::Option<T>)
+    where T: core::marker::Destruct
+    ensures r == (if a is Some { a } else { b });
